@@ -132,4 +132,34 @@ instance (f : List Nat) : Decidable (IsEncoderOutput14 f) := by
     | some (_ :: _ :: _) => isFalse (by rintro ⟨s', hs', _⟩; cases hs')
   infer_instance
 
+/-- executable form of "the output of the encoder for a chain of `n` sequences, all with 14-byte headers": bytes; exactly
+`n` well-formed sequences under the independent framing reader with nothing between or after them; every header has 14
+bytes and carries its computed CRC; every file CRC is correct over its whole sequence. For `n = 1` this is
+`IsEncoderOutput14` (`isEncoderChain14_one`). Evaluated by the driver on the operations the harness TAGS as real encoder output. -/
+def isEncoderChain14 (f : List Nat) (n : Nat) : Bool :=
+  f.all (fun b => decide (b < 256)) &&
+  match parseStream f with
+  | some seqs => seqs.length == n && seqs.all fun s => s.header.size == 14 && headerCrcStrict f s && fileCrcOk f s
+  | none => false
+
+theorem isEncoderChain14_one (f : List Nat) : isEncoderChain14 f 1 = true ↔ IsEncoderOutput14 f := by
+  unfold isEncoderChain14 IsEncoderOutput14
+  simp only [Bool.and_eq_true, List.all_eq_true, decide_eq_true_eq]
+  constructor
+  · rintro ⟨hb, h⟩
+    refine ⟨hb, ?_⟩
+    cases hp : parseStream f with
+    | none => rw [hp] at h; cases h
+    | some seqs =>
+      rw [hp] at h
+      simp only [Bool.and_eq_true, beq_iff_eq, List.all_eq_true] at h
+      match seqs, h with
+      | [s], ⟨_, hall⟩ =>
+        have := hall s (by simp)
+        exact ⟨s, rfl, this.1.1, this.1.2, this.2⟩
+  · rintro ⟨hb, s, hp, h14, hc, hfc⟩
+    refine ⟨hb, ?_⟩
+    rw [hp]
+    simp [h14, hc, hfc]
+
 end Fit.IntegritySpec
